@@ -140,16 +140,24 @@ class CFG:
                     stack.append(p)
         return seen
 
-    def all_paths_cut(self, target_block, edge_pred, start=None):
-        """True iff every path from start (default entry) to target_block uses at least one
-        edge for which edge_pred(lit, bid, idx) holds."""
+    def all_paths_cut(self, target_block, edge_pred, start=None, consistent=True):
+        """True iff every (consistent) path from start (default entry) to target_block uses at least one
+        edge for which edge_pred(lit, bid, idx) holds.  consistent: paths whose literals on plain
+        variables contradict each other (or contradict a constant just assigned to the variable, also through
+        a copy `a = b`) do not count - this is what makes `err = helper(); if (err) return err;` transparent."""
         start = self.entry if start is None else start
         cut = set()
         for (b, i, s) in self.edges():
             lit = self.edge_lit(b, i)
             if edge_pred(lit, b, i):
                 cut.add((b, i))
-        return target_block not in self.reachable(start, avoid_edges=cut), cut
+        if target_block not in self.reachable(start, avoid_edges=cut):
+            return True, cut
+        if not consistent:
+            return False, cut
+        import re as _re
+        wp = self.feasible_reach(target_block, lambda lit, b, i: (b, i) in cut, lambda a: _re.match(r"^[A-Za-z_][\w$.]*$", a) is not None, start=start)
+        return wp is None, cut
 
     def feasible_reach(self, target_block, cut_pred, track, start=None):
         """Is target_block reachable from start without using an edge for which cut_pred holds,
@@ -192,6 +200,10 @@ class CFG:
                     cv = n.children[1].const_value()
                     if cv is not None and track(nm) and n.children[0].strip().k == "DeclRefExpr":
                         fd[nm] = bool(cv)
+                    elif cv is None and track(nm) and n.children[0].strip().k == "DeclRefExpr":
+                        src = render(n.children[1])
+                        if src in fd and n.children[1].strip().k == "DeclRefExpr":
+                            fd[nm] = fd[src]          # copy: a = b
                 elif n.k == "DeclStmt":
                     for d in n.j.get("decls", []):
                         if d.get("init", -1) >= 0 and track(d["name"]):
